@@ -61,6 +61,7 @@ def c_encode_cases(u, groups, rng, tier, op):
     for name in all_names(u):
         r = rng.fork(op + name)
         vals = values_for(u, r, name, b['vals_per_type'])
+        vals.append(ValGen(u, r, minimal=True, max_depth=4).val(st(name)))
         if name in groups.get('maps1', []):
             ms = map_size_values(u, r, name)
             vals += ms if tier == 'thorough' else [ms[r.below(len(ms))], ms[6]]
@@ -106,13 +107,15 @@ def c03_cases(u, groups, rng, tier):
     out = []
     for name in all_names(u):
         r = rng.fork('c03' + name)
-        for j in range(b['msgs_per_type']):
-            v = ValGen(u, r, big=(j == 0), max_depth=3).val(st(name))
+        for j in range(b['msgs_per_type'] + 1):
+            v = ValGen(u, r, big=(j == 0), max_depth=3, minimal=(j == b['msgs_per_type'])).val(st(name))
             w = denote_py(u, st(name), v)
-            if j > 0:
+            if 0 < j < b['msgs_per_type']:
                 w = mutate_tree(r, w, [30000 + r.below(50), 1, 2, 3, 65535, 255, 256])
+            if j == b['msgs_per_type'] and w[0] == 'st' and len(w[1]) > 1 and r.chance(1, 2):
+                w = ('st', list(reversed(w[1])), w[2])      # foreign field order: containers last or first
             msg = put_py(w)
-            trail = b'' if r.chance(1, 2) else bytes(r.below(256) for _ in range(1 + r.below(5)))
+            trail = b'' if (r.chance(1, 2) or j == b['msgs_per_type']) else bytes(r.below(256) for _ in range(1 + r.below(5)))
             out.append(('(dec %s %s %s)' % (name, dst_choice(u, r, name), hexs(msg + trail)),
                         {'type': name, 'op': 'dec', 'class': 'own' if j == 0 else 'evolved', 'trailing': len(trail) > 0}))
     return out
@@ -275,6 +278,7 @@ def c15_cases(u, groups, rng, tier):
 
 def c16_cases(u, groups, rng, tier):
     out = c_encode_cases(u, groups, rng, tier, 'enc')
+    out += [c for c in c04_cases(u, groups, rng.fork('c16buf'), 'quick') if c[0].startswith('(encbuf')][:1500]
     out += c03_cases(u, groups, rng.fork('c16dec'), 'quick')
     return out
 
@@ -313,7 +317,7 @@ def c12_cases(u, groups, rng, tier):
 
 def c13_cases(u, groups, rng, tier):
     out = []
-    for name in groups.get('invalid', []) + groups.get('invalid-nested', []):
+    for name in groups.get('invalid', []) + groups.get('invalid-nested', []) + groups.get('poison', []):
         out.append(('(resolve %s)' % name, {'type': name, 'op': 'resolve'}))
         out.append(('(api3 %s)' % name, {'type': name, 'op': 'api3'}))
     for name in groups.get('spell', []) + groups.get('structs', []) + groups.get('scalars', []):
